@@ -53,7 +53,7 @@ def random_tree(rng, dirs, name, dsfx, postfixes, tagger, p_main=0.6, names=DROP
     decoys: further drop-in directory postfixes which get files but are not to be consulted"""
     t = Tree()
     if names is DROPIN_NAMES and rng.random() < 0.25:
-        names = DROPIN_NAMES + LOOKALIKE_NAMES + LOOKALIKE_NAMES
+        names = LOOKALIKE_NAMES + DROPIN_NAMES[:5]
     postfixes = list(postfixes) + [q for q in (decoys or []) if q not in postfixes]
     uid, gid = owner if owner else (None, None)
     seen = set()
